@@ -78,11 +78,14 @@ class HillClimbSearch(StructureEstimator):
         tabu_list = set(tabu_list)
 
         # Step 1: Get all legal operations for adding edges.
-        potential_new_edges = (
-            set(permutations(self.variables, 2))
-            - set(model.edges())
-            - set([(Y, X) for (X, Y) in model.edges()])
-        )
+        # A list in column order, not a set: ties between equally good additions must not be
+        # broken by hash order (the result would depend on PYTHONHASHSEED and on node names).
+        existing_edges = set(model.edges())
+        potential_new_edges = [
+            (X, Y)
+            for (X, Y) in permutations(self.variables, 2)
+            if (X, Y) not in existing_edges and (Y, X) not in existing_edges
+        ]
 
         for X, Y in potential_new_edges:
             # Check if adding (X, Y) will create a cycle.
